@@ -456,23 +456,24 @@ func evaluateCollectionExpression(expression *grammar.CollectionExpression, datu
 
 			if v.Kind() == reflect.Map {
 				key := keys[i]
-				if expression.NameBinding.Default != "" {
-					innerOpt = append(innerOpt, WithLocalVariable(expression.NameBinding.Default, nil, key.Interface()))
-				}
-				if expression.NameBinding.Index != "" {
-					innerOpt = append(innerOpt, WithLocalVariable(expression.NameBinding.Index, nil, key.Interface()))
-				}
+				// The value name is an alias for a path that starts with the
+				// collection's own selector, which is resolved outside the
+				// braces: bind it before the key name so that the key name
+				// cannot capture it.
 				if expression.NameBinding.Value != "" {
 					path := make([]string, 0, len(expression.Selector.Path)+1)
 					path = append(path, expression.Selector.Path...)
 					path = append(path, key.Interface().(string))
 					innerOpt = append(innerOpt, WithLocalVariable(expression.NameBinding.Value, path, nil))
 				}
-			} else {
-				if expression.NameBinding.Index != "" {
-					innerOpt = append(innerOpt, WithLocalVariable(expression.NameBinding.Index, nil, i))
+				if expression.NameBinding.Default != "" {
+					innerOpt = append(innerOpt, WithLocalVariable(expression.NameBinding.Default, nil, key.Interface()))
 				}
-
+				if expression.NameBinding.Index != "" {
+					innerOpt = append(innerOpt, WithLocalVariable(expression.NameBinding.Index, nil, key.Interface()))
+				}
+			} else {
+				// see above: the value alias goes first, the index name last
 				pathValue := make([]string, 0, len(expression.Selector.Path)+1)
 				pathValue = append(pathValue, expression.Selector.Path...)
 				pathValue = append(pathValue, fmt.Sprintf("%d", i))
@@ -481,6 +482,9 @@ func evaluateCollectionExpression(expression *grammar.CollectionExpression, datu
 				}
 				if expression.NameBinding.Value != "" {
 					innerOpt = append(innerOpt, WithLocalVariable(expression.NameBinding.Value, pathValue, nil))
+				}
+				if expression.NameBinding.Index != "" {
+					innerOpt = append(innerOpt, WithLocalVariable(expression.NameBinding.Index, nil, i))
 				}
 			}
 
